@@ -104,7 +104,18 @@ def _lookup_block(name, rng, labels):
 LABEL_SETS = [[], ["a"], ["a", "b", "a"], ["", "x", ""], ["Ab", "ab", " ab", "ab "], ["k", "k", "k", "k"], ["€", "e", "€"], ["x", "y", "z", "x", "y"]]
 
 
+def _foreign_items():
+    import random as _r
+    rr = _r.Random(7)
+    return {"Data3D": gen.marker_track(rr, 4, lab="a"), "ForceTorque3D": gen.ft_track(rr, 4, lab="a"), "EMG": gen.emg_track(rr, 4, lab="a"), "Events": gen.event(rr)}
+
+
+_FOREIGN_ITEMS = {}
+
+
 def _coherence(name, b, labels, case, seed, when=""):
+    if not _FOREIGN_ITEMS:
+        _FOREIGN_ITEMS.update(_foreign_items())
     """the C18 clauses on one block as it is now: len / iteration / positions / labels / membership / key types / frame"""
     fails = []
     items = list(getattr(b, LOOKUP[name][0]))
@@ -144,7 +155,8 @@ def _coherence(name, b, labels, case, seed, when=""):
             except Exception as e:
                 fails.append(_f("C18", "C18.keytype", name, f"{w}b[{bad!r}] raised {e!r} instead of TypeError", case, seed))
         # membership supports labels and item objects only: every other key type (positions included) is refused
-        for bad in (0, 1, -1, len(items), 1.5, None, (1,), b"a", True):
+        foreign = [x for nm2, x in _FOREIGN_ITEMS.items() if nm2 != name]
+        for bad in [0, 1, -1, len(items), 1.5, None, (1,), b"a", True] + foreign:
             try:
                 r = bad in b
                 fails.append(_f("C18", "C18.keytype", name, f"{w}`{bad!r} in b` returned {r} instead of raising TypeError", case, seed))
@@ -236,7 +248,7 @@ def check_c16(seed, tier):
         for nf in (0, 1, 3):
             for k in (0, 2):
                 # single add: right length, wrong length, wrong kind
-                for what in ["ok", "short", "long", "regrown"] + list(range(len(junk))) + ["othertrack"]:
+                for what in ["ok", "short", "long", "regrown", "matrix"] + list(range(len(junk))) + ["othertrack"]:
                     b = mkb(nf, k)
                     twin = copy.deepcopy(b)
                     case = dict(block=name, frames=nf, prior=k, add=str(what))
@@ -247,6 +259,14 @@ def check_c16(seed, tier):
                         x = mkt(nf + 1) if nf <= 1 else mkt(nf - 1)
                     elif what == "long":
                         x = mkt(nf + 2)
+                    elif what == "matrix":
+                        # as many stored numbers as a valid track has, arranged with another number of frames (rows)
+                        if nf < 2:
+                            continue
+                        x = mkt(nf)
+                        for attr, val in vars(x).items():
+                            if isinstance(val, np.ndarray):
+                                setattr(x, attr, np.ascontiguousarray(val.reshape((1,) + val.shape)) if val.ndim == 1 else np.ascontiguousarray(val.reshape(1, -1)))
                     elif what == "regrown":
                         # built with the right length, then its arrays replaced by longer ones (attribute assignment): the
                         # track now HAS another number of frames, whatever it had when it was constructed
@@ -323,7 +343,29 @@ def check_c16(seed, tier):
                                     if len(now) != len(old_items) or any(a is not c for a, c in zip(now, old_items)):
                                         fails.append(_f("C16", "C16.assign_rollback", name, f"list assignment is not all-or-nothing: block now holds {len(now)} tracks "
                                                         f"(previously {len(old_items)})", case, seed))
-    return dict(what="add-track / assign-track-list contracts on real blocks", cases=n, label="bounded", bound="3 block types x frame counts x every position of one invalid element"), fails
+    # what is assigned is not even a list: a single track, a number, an iterator that fails half-way
+    for name in ("Data3D", "ForceTorque3D"):
+        mkb, mkt, add, fld = mk[name]
+        for nf in (1, 3):
+            for what in ("single track", "int", "failing generator", "None"):
+                b = mkb(nf, 2)
+                old_items = list(getattr(b, fld))
+                n += 1
+
+                def failing():
+                    yield mkt(nf)
+                    raise RuntimeError("source of tracks failed")
+                val = {"single track": mkt(nf), "int": 5, "failing generator": failing(), "None": None}[what]
+                case = dict(block=name, frames=nf, assign=what)
+                try:
+                    b.tracks = val
+                    fails.append(_f("C16", "C16.assign_invalid", name, f"assigning {what} to tracks did not raise", case, seed))
+                except Exception:
+                    pass
+                now = list(b.tracks)
+                if len(now) != len(old_items) or any(a is not c for a, c in zip(now, old_items)):
+                    fails.append(_f("C16", "C16.assign_rollback", name, f"a refused assignment ({what}) did not leave the previous tracks in place ({len(old_items)} before, {len(now)} after)", case, seed))
+    return dict(what="add-track / assign-track-list contracts on real blocks", cases=n, label="bounded", bound="3 block types x frame counts x every position of one invalid element; non-lists; wrong-shaped arrays"), fails
 
 
 # ------------------------------------------------------------------------------------------------ C20
@@ -494,6 +536,21 @@ def check_c20(seed, tier):
                     fails.append(_f("C20", "C20.exception", name, f"unexpected {e!r}", case, seed))
     finally:
         shutil.rmtree(d, ignore_errors=True)
+    # every mutable attribute of two blocks built by the same constructor call is its own object
+    for name, (mk_, mutate, size) in makers.items():
+        n += 1
+        a, b = mk_(), mk_()
+        shared = _shared_mutables(a, b)
+        if shared:
+            fails.append(_f("C20", "C20.shared", name, f"two blocks built by the same constructor call share mutable state: {shared[:3]}", dict(block=name, scenario="construct twice, compare reachable objects"), seed))
+        for attr, val in list(vars(a).items()):
+            if isinstance(val, list):
+                marker = object()
+                val.append(marker)
+                later = mk_()
+                if any(x is marker for x in getattr(b, attr)) or any(x is marker for x in getattr(later, attr)):
+                    fails.append(_f("C20", "C20.shared", name, f"appending to .{attr} of one block shows in another / in a block built later", dict(block=name, scenario=f"append to {attr}"), seed))
+                del val[-1]
     # event values
     n += 1
     e1, e2 = Event("a"), Event("b")
